@@ -1188,13 +1188,211 @@ def roundconv_cases(tier, seed, shard):
             yield dict(kind='roundconv', semp=[rnd.choice((1, -1)), e_, hex(m_), hex(p_)], fmts=[fmt])
 
 
+# --------------------------------------------------------------------------- (i) the life of ONE object: observers between in-place mutators
+
+LIFE_OBSERVERS = ('convert_hp', 'convert_sp', 'convert_dp', 'to_float', 'compare', 'compared_with', 'is_infinity')
+LIFE_MUTATORS = ('reducePrecision', 'reducePrecisionWithRounding', 'increase_precision', 'increase_exponent', 'set_semp+adjust_semp', 'set_semp',
+                 'adjust_sem', 'from_ieee754', 'convert_float_to_semp', 'attribute_write_sign', 'replaced_by_result')
+
+
+def _fresh_clone(o):
+    """A FRESH object with the same components and flags (plain attribute writes on a new FPNum(): no setter, no copy())."""
+    c = _helpers()[0]()
+    c.s, c.e, c.m, c.p = o.s, o.e, o.m, o.p
+    c.infinity, c.nan, c.inexact = o.infinity, o.nan, o.inexact
+    return c
+
+
+def _observe(o, name, others):
+    try:
+        with muted():
+            if name.startswith('convert_'):
+                return hx(o.convert(name[8:]))
+            if name == 'to_float':
+                return repr(o.to_float())
+            if name == 'compare':
+                return [o.compare(b) for b in others]
+            if name == 'compared_with':
+                return [b.compare(o) for b in others]
+            if name == 'is_infinity':
+                return [bool(o.isPositiveInfinity()), bool(o.isNegativeInfinity())]
+    except Exception as e:
+        return 'raises:' + type(e).__name__
+    raise ValueError(name)
+
+
+def _pow2(p):
+    return p > 0 and p & (p - 1) == 0
+
+
+def judge_life(case):
+    """ONE live FPNum object; a sequence of steps, each an in-place mutator (or nothing) followed by a list of observers.  Oracles:
+    (1) every observer answers exactly what it answers on a FRESH object with the same components -- observers are functions of the
+    denoted value, not of what was asked or done before; (2) convert() encodes the value the object denotes NOW (as in section h) when
+    the object is in canonical form or carries out of it by rounding (p <= m <= 2p); (3) the mutators whose effect is modelled leave the modelled value."""
+    FPNum = _helpers()[0]
+    out = []
+    n = 0
+    try:
+        with muted():
+            live, val = build_operand(case['born'])
+            others = [build_operand(d) for d in case['others']]
+    except Exception as e:
+        return 1, [V('fpnum_construct', dict(function='FPNum constructor', relation='raises:' + type(e).__name__), None, repr(e)[:120],
+                     'building %r raises %r' % (case['born'], e))]
+    if fpnum_value(live) != val:
+        return 0, []              # construction is judged elsewhere
+    oth = [b[0] for b in others]
+    asked = set()
+    last_mut = 'none'
+    for step, (mut, observers) in enumerate(case['steps']):
+        rounded = False
+        if mut:
+            last_mut = name = mut[0]
+            n += 1
+            want = val
+            either = None
+            try:
+                with muted():
+                    if name in ('reducePrecision', 'reducePrecisionWithRounding'):
+                        k = mut[1]
+                        if not _pow2(live.p):
+                            continue
+                        if (1 << k) < live.p:
+                            sh = live.p.bit_length() - 1 - k
+                            lo = Fraction(live.s) * Fraction(live.m >> sh, 1 << k) * Fraction(2) ** live.e
+                            ulp = Fraction(live.s) * Fraction(1, 1 << k) * Fraction(2) ** live.e
+                            want = lo
+                            if name == 'reducePrecisionWithRounding' and (live.m & ((1 << sh) - 1)):
+                                either = (lo, lo + ulp)        # which way it rounds is not judged
+                        getattr(live, name)(k)
+                        rounded = True
+                    elif name == 'increase_precision':
+                        live.increase_precision(live.p << mut[1])
+                    elif name == 'increase_exponent':
+                        live.increase_exponent(live.e + mut[1])
+                    elif name in ('set_semp+adjust_semp', 'set_semp'):
+                        s_, e_, m_, p_ = (int(t, 16) if isinstance(t, str) else t for t in mut[1:5])
+                        live.set_semp(s_, e_, m_, p_)
+                        if name == 'set_semp+adjust_semp':
+                            live.adjust_semp()
+                        want = Fraction(s_) * Fraction(m_, p_) * Fraction(2) ** e_
+                    elif name == 'adjust_sem':
+                        s_, e_, m_ = mut[1], mut[2], float.fromhex(mut[3])
+                        live.adjust_sem(s_, e_, m_)
+                        want = None                      # the float mantissa form is not modelled; the observers are still compared
+                    elif name == 'from_ieee754':
+                        v = int(mut[2], 16)
+                        getattr(live, 'from_ieee754_' + mut[1])(v)
+                        want = ref_value(mut[1], v)
+                    elif name == 'convert_float_to_semp':
+                        x = float.fromhex(mut[1])
+                        live.convert_float_to_semp(x)
+                        want = Fraction(x)
+                    elif name == 'attribute_write_sign':
+                        live.s = -live.s
+                        want = -val
+                    elif name == 'replaced_by_result':
+                        b, xb = others[mut[2]]
+                        live = getattr(live, mut[1])(b)
+                        want = {'add': val + xb, 'sub': val - xb, 'mul': val * xb}[mut[1]]
+                    else:
+                        raise ValueError(name)
+            except Exception as e:
+                out.append(V('fpnum_life_mutator', dict(function='FPNum.' + name, relation='raises:' + type(e).__name__), None, repr(e)[:120],
+                             'life step %d: %r on the live object raises %r' % (step, mut, e)))
+                break
+            got = fpnum_value(live)
+            if want is None or got is None:
+                val = got
+            elif got == want or (either and got in either):
+                val = got
+            else:
+                out.append(V('fpnum_life_mutator', dict(function='FPNum.' + name, relation=relation(got, want)), str(want), str(got),
+                             'life step %d: after %r the object denotes %s, modelled %s' % (step, mut, got, want)))
+                break
+            if val is None:
+                break                 # became inf / NaN: not part of this class
+        for ob in observers:
+            n += 1
+            a = _observe(live, ob, oth)
+            f = _observe(_fresh_clone(live), ob, oth)
+            again = 'asked_before' if ob in asked else 'first_time_asked'
+            asked.add(ob)
+            if a != f:
+                out.append(V('fpnum_observer_history', dict(function='FPNum.' + ob.split('_')[0] if ob.startswith('convert') else 'FPNum.' + ob, relation='differs_from_fresh_object_with_the_same_components',
+                                                            last_mutator=last_mut, observer=again),
+                             f, a, 'life step %d: after %s, %s on the live object answers %r, on a fresh object with the same components (%s) %r [%s]; life so far: born %r, steps %r' % (
+                                 step, last_mut, ob, a, _short(_snapshot(live)), f, again, case['born'], case['steps'][:step + 1])))
+                return n, out
+            if ob.startswith('convert_') and val != 0 and live.p > 0 and live.p <= live.m <= 2 * live.p:
+                # canonical form, or the carry of a rounding (m == 2p); objects put out of canonical form by hand (increase_exponent, set_semp) are
+                # compared with the fresh object only -- section h judges the one-step-out forms
+                def lfail(fmt, form_, rel, expected, observed, label, v_):
+                    out.append(V('%s_convert_after_rounding' % fmt, dict(fmt=fmt, stage='convert', function='FPNum.convert', object_form=form_, relation=rel, flow='life'),
+                                 expected, observed, 'life step %d (last mutator %s): convert(%s): object denotes %s (%s), expected %s observed %s [%s]' % (
+                                     step, last_mut, fmt, v_, form_, expected, observed, rel)))
+                n += check_convert_of(live, [ob[8:]], lfail, 'life')
+                if out:
+                    return n, out
+            elif ob == 'compare' and val is not None:
+                exp_c = [_sign(val - xb) for _, xb in others]
+                if a != exp_c:
+                    out.append(V('fpnum_compare', dict(function='FPNum.compare', operands='life', relation='other'), exp_c, a,
+                                 'life step %d: compare(live %s, others %s) returned %r' % (step, val, [str(xb) for _, xb in others], a)))
+                    return n, out
+    return n, out
+
+
+def life_cases(tier, seed, shard):
+    rnd = rng(seed, 'C12', 'life', shard)
+    ops_pool = arith_operands(tier, rnd)
+    nz = [d for d in ops_pool if not desc_is_zero(d)]
+
+    def finite_pattern(fmt):
+        _, _, ew, mw = FM[fmt]
+        e = rnd.choice((0, 1, (1 << (ew - 1)) - 1, (1 << ew) - 2, rnd.randrange((1 << ew) - 1)))
+        return hex((rnd.getrandbits(1) << (ew + mw)) | (e << mw) | rnd.choice((0, 1, (1 << mw) - 1, rnd.getrandbits(mw))))
+
+    def mutator():
+        name = rnd.choice(LIFE_MUTATORS + ('reducePrecision', 'reducePrecisionWithRounding') * 3)
+        if name.startswith('reducePrecision'):
+            return [name, rnd.choice((1, 2, 3, 5, 10, 10, 23, 23, 30, 52, 60))]
+        if name == 'increase_precision':
+            return [name, rnd.randint(1, 8)]
+        if name == 'increase_exponent':
+            return [name, 1]
+        if name.startswith('set_semp'):
+            pk = rnd.choice((1, 4, 10, 23, 52, rnd.randint(1, 70)))
+            e_ = rnd.choice((0, 1, -1, 5, -14, 15, -126, 127, rnd.randint(-140, 120)))
+            return [name, rnd.choice((1, -1)), e_, hex((1 << pk) + rnd.getrandbits(pk)), hex(1 << pk)]
+        if name == 'adjust_sem':
+            return [name, rnd.choice((1, -1)), rnd.randint(-20, 20), (1 + rnd.getrandbits(20) / (1 << 20)).hex()]
+        if name == 'from_ieee754':
+            fmt = rnd.choice(FMTS)
+            return [name, fmt, finite_pattern(fmt)]
+        if name == 'convert_float_to_semp':
+            return [name, (rnd.choice((1, -1)) * math.ldexp(1 + rnd.getrandbits(rnd.choice((3, 10, 23, 52))) / (1 << 52), rnd.randint(-30, 30))).hex()]
+        if name == 'attribute_write_sign':
+            return [name]
+        return [name, rnd.choice(('add', 'sub', 'mul')), rnd.randrange(3)]
+
+    for _ in range(1200 if tier == 'quick' else 12000):
+        born = rnd.choice(nz)
+        others = [rnd.choice(nz) for _ in range(3)]
+        steps = [[None, [o for o in LIFE_OBSERVERS if rnd.random() < 0.5]]]
+        for _ in range(rnd.randint(3, 10)):
+            steps.append([mutator() if rnd.random() < 0.8 else None, [o for o in LIFE_OBSERVERS if rnd.random() < 0.5]])
+        yield dict(kind='life', born=born, others=others, steps=steps)
+
+
 def _split(v):
     """hash(int) reduces modulo 2**61-1, so wide patterns are hashed as 60-bit limbs (v + 2**63 and v + 4 must not collide)."""
     m = (1 << 60) - 1
     return (v >> 120, (v >> 60) & m, v & m)
 
 
-JUDGES = {'pattern': judge_pattern, 'c2': judge_c2, 'arith': judge_arith, 'fxp': judge_fxp, 'float': judge_float, 'history': judge_history, 'roundconv': judge_roundconv}
+JUDGES = {'pattern': judge_pattern, 'c2': judge_c2, 'arith': judge_arith, 'fxp': judge_fxp, 'float': judge_float, 'history': judge_history, 'roundconv': judge_roundconv, 'life': judge_life}
 CASE_TIMEOUT = 30    # seconds; the slowest case on the unchanged tree takes a few milliseconds
 
 
@@ -1242,6 +1440,10 @@ def run_check(run, tier, seed, shard):
                '(components(), flags, convert() bits); only reducePrecision* are mutators by contract; they are applied to RESULTS only, and a result must be a new object (not one of the operands)'
                ' so that rounding it cannot reach an operand.  Quotients of div are not '
                'in the statement and not judged (exceptions from div are tolerated), only what div does to its operands')
+    run.assume('object life: convert / to_float / compare / isPositiveInfinity / isNegativeInfinity are observers -- on a live object that was observed and mutated in place before '
+               '(reducePrecision*, increase_*, set_semp, adjust_*, from_ieee754_*, convert_float_to_semp, a write to the public attribute s) they must answer what a fresh object with '
+               'the same components answers; modelled mutator effects: reducePrecision(k) truncates m/p to k fraction bits, reducePrecisionWithRounding(k) gives that or one unit more, '
+               'increase_* and adjust_semp keep the value; adjust_sem with a float mantissa is not modelled (observers still compared)')
     run.assume('Python floats that are not singles: FloatingPointHelper.sp_to_ieee754(_parts) documents "the IEEE 754 representation of v" and rounds, '
                'so it is compared with the platform (struct \'<f\', round to nearest even, overflow -> infinity); sp_to_ieee754_parts is judged by the '
                'word s<<31 + e<<23 + m its parts denote (parts (s,0,2**23) are the smallest normal).  FPNum.convert truncates by design '
@@ -1379,6 +1581,30 @@ def run_check(run, tier, seed, shard):
             yield c
     sweep('round_then_convert', rc(), lambda c: True, lambda c: int(stable_hash(c), 16), 1499)
     run.extra['round_then_convert_flows'] = rstat
+    # (i) the life of one object: observers interleaved with every in-place mutator
+    lstat = {}
+
+    def lf():
+        for c in life_cases(tier, seed, shard):
+            asked = set()
+            for mut, obs in c['steps']:
+                if mut:
+                    lstat['mutator_' + mut[0]] = lstat.get('mutator_' + mut[0], 0) + 1
+                    for o in obs:
+                        if o in asked:
+                            lstat['observer_asked_again_after_a_mutator'] = lstat.get('observer_asked_again_after_a_mutator', 0) + 1
+                            if o.startswith('convert') and mut[0].startswith('reducePrecision'):
+                                lstat['same_format_converted_again_after_reducePrecision'] = lstat.get('same_format_converted_again_after_reducePrecision', 0) + 1
+                for o in obs:
+                    lstat['observer_' + o] = lstat.get('observer_' + o, 0) + 1
+                    asked.add(o)
+            yield c
+    sweep('fpnum_object_life', lf(), lambda c: True, lambda c: int(stable_hash([c['born'], c['steps']]), 16), 499)
+    run.extra['object_life_class'] = lstat
+    if not run.too_many and not run.violations:
+        for k in ['mutator_' + m for m in LIFE_MUTATORS] + ['observer_' + o for o in LIFE_OBSERVERS] + ['observer_asked_again_after_a_mutator', 'same_format_converted_again_after_reducePrecision']:
+            if not lstat.get(k):
+                run.inconclusive.append('object-life class never exercised: %s' % k)
     run.extra['sections'] = sect
     # (g) the same helpers in an interpreter that strips assert statements (python -O / PYTHONOPTIMIZE=1): a reduced pass in a child
     if shard is None or shard[0] == 0:
